@@ -331,6 +331,8 @@ type Contract struct {
 	MaxPaths  int
 	CaseCalls []CaseCalls
 	SkipTag   string
+	Unclaimed [][2]string
+	MustRead  []CaseCalls
 	Lemmas    []Clause
 	Covers    bool
 }
@@ -673,6 +675,20 @@ func (cs *ContractSet) parseContractFile(path, pkgPath string) error {
 				cur.Det = append(cur.Det, d)
 			case "writes":
 				cur.Writes = append(cur.Writes, fieldsComma(rest)...)
+			case "must_read":
+				// must_read <pkg.Type>: F1, F2 -- each field carries meaning: a translator must look at it
+				i := strings.Index(rest, ":")
+				if i < 0 {
+					return fmt.Errorf("%s:%d: must_read <type>: fields", path, l.no)
+				}
+				cur.MustRead = append(cur.MustRead, CaseCalls{Type: strings.TrimSpace(rest[:i]), Allowed: fieldsComma(rest[i+1:]), Line: l.no})
+			case "unclaimed":
+				// unclaimed <obligation name part> because <reason>: generated but not part of the claim
+				i := strings.Index(rest, " because ")
+				if i < 0 {
+					return fmt.Errorf("%s:%d: unclaimed <name> because <reason>", path, l.no)
+				}
+				cur.Unclaimed = append(cur.Unclaimed, [2]string{strings.TrimSpace(rest[:i]), strings.TrimSpace(rest[i+9:])})
 			case "skiptag":
 				// decoders leave struct fields tagged <key>:"-" untouched
 				cur.SkipTag = strings.TrimSpace(rest)
